@@ -1,5 +1,5 @@
 """C10 — resizing preserves submitted work and surviving workers, and terminates (resize plan model + E1)"""
 from ..e1 import ReusePart
 
-PROP = ReusePart("C10", ["C10", "C03", "C01"], ["LokyModel.Props.C10", "LokyModel.Props.C10Resize"], quick=1500, thorough=30000,
+PROP = ReusePart("C10", ["C10", "C03", "C01"], ["LokyModel.Props.C10", "LokyModel.Props.C10Resize", "LokyModel.Props.C10Plan"], quick=1500, thorough=30000,
                  families=[("reuse", 3), ("reusecrash", 2), ("reusegrow", 3), ("reusebig", 1), ("reusecb", 1), ("reusecancel", 2), ("reusecbsub", 1), ("reusebigcrash", 1), ("reuseput", 2)])
